@@ -181,6 +181,8 @@ def _run(check, ctx, rep, replay):
         exit_code = 1
     n_obl = len(theorems)
     n_dis = 0 if not ok_props else sum(1 for th in theorems if th in axioms and not (set(axioms[th]) - core.ALLOWED_AXIOMS))
+    # theorems of a sibling project audited by an extra step (C01: lean-loader) count as obligations of this property too
+    n_obl += int(ctx.coverage.get('loader_theorems', 0)); n_dis += int(ctx.coverage.get('loader_theorems_discharged', 0))
     cov = dict(obligations=max(n_obl, 1), discharged=n_dis,
                checker_cmd='cd lean && lake build %s  (then `#print axioms` on each theorem)' % check.module,
                trusted_base=core.TRUSTED_BASE + list(check.extra_trusted),
@@ -197,7 +199,7 @@ def _run(check, ctx, rep, replay):
                provenance={f: d.get('sha') for f, d in (ctx.meta['functions'].items() if ctx.meta else [])} if getattr(check, 'functions', None) is None
                           else {f: ctx.meta['functions'].get(f, {}).get('sha') for f in check.functions} if ctx.meta else {},
                broken=dict(proof=rep['proof_broken'], tie=rep['tie_broken'], other=rep['problems']),
-               extra={k: v for k, v in stats.items() if k not in ('distribution', 'samples', 'rule', 'distinct_nontrivial', 'max_rel_dev')})
+               extra=dict({k: v for k, v in stats.items() if k not in ('distribution', 'samples', 'rule', 'distinct_nontrivial', 'max_rel_dev')}, **{'extra_steps': dict(ctx.coverage)} if ctx.coverage else {}))
     core.write_evidence(ctx, check.level, cov, len(new_viols) + (1 if broken and not new_viols else 0), check.assumptions)
     log('%s %s: exit %d  (%.1fs; theorems %d/%d; corr %d lines, %d mismatches; search %d cases, %d violations, %d known)' % (
         check.id, ctx.tier, exit_code, time.time() - ctx.t0, n_dis, n_obl, n_corr, len(mism), n_search, len(new_viols), len(rep['known'])))
